@@ -392,6 +392,15 @@ func replayBudgetExhausted() bool {
 	return time.Since(replayStart) > 150*time.Second
 }
 
+func undecidableRequires(ct *Contract) bool {
+	for _, rq := range ct.Requires {
+		if strings.Contains(rq.Text, "forallBuf") || strings.Contains(rq.Text, "inPool") {
+			return true
+		}
+	}
+	return false
+}
+
 func isEffectKind(k string) bool { return k == "writes" || k == "writes-nothing" || k == "reads" || k == "structure" }
 
 type preSearchResult struct {
@@ -658,6 +667,14 @@ func (s *Session) replayOnceMode(prop string, o *Obligation, prev []map[string]s
 	// stage 4 and 5 drop the quantified assumptions (heap contents after append/make/copy): the
 	// shapes found may then be spurious, which the run on the real code decides
 	stages := [][4]int64{{10, 3, 8, 0}, {20, 4, 12, 0}, {48, 6, 20, 0}, {10, 3, 8, 1}, {48, 6, 15, 1}}
+	if undecidableRequires(ct) {
+		// quantified preconditions over all buffer objects (pool invariant) cannot be re-checked on
+		// a run: only models of the complete assumptions are used
+		stages = stages[:3]
+		if pre {
+			return false, nil
+		}
+	}
 	if pre {
 		stages = [][4]int64{{12, 3, 8, 2}, {12, 3, 8, 0}}
 	}
